@@ -64,7 +64,7 @@ partial def triggerLoop [Inhabited σ] (m : Machine σ) (s : σ) (gaps : List Ga
   | e :: _ =>
     let (s2, acc2, k2) := (gaps.filter (·.k == k)).foldl (fun (st : σ × List Emission × Nat) g =>
         let (s', es') := addRow m st.1 g.id g.ts now
-        (s', st.2.1 ++ es', st.2.2 + es'.length)) (s1, acc ++ [e], k + 1)
+        (s', st.2.1 ++ es', st.2.2)) (s1, acc ++ [e], k + 1)
     triggerLoop m s2 gaps now k2 acc2
 
 def deliver [Inhabited σ] (m : Machine σ) (s : σ) (gaps : List Gap) (now : Int) : Option (σ × List Emission) :=
